@@ -54,6 +54,11 @@ CHECKS["C14"] = {
           symbolic="workers, max, unfinished connections (each <= 5) constrained by the representation invariant",
           bounds="one acceptor step from every pool state with counters <= 5 that satisfies the invariant; unwind 8",
           stubs=STUB_POOL),
+        H("c14_execute_step_b8", mod="server::verif_server::c14", tiers=("thorough",), timeout=(600, 3600),
+          functions=["varlink::server::ThreadPool::execute", "varlink::server::ThreadPool::num_busy"],
+          symbolic="workers, max, unfinished connections (each <= 8) constrained by the representation invariant",
+          bounds="one acceptor step from every pool state with counters <= 8 that satisfies the invariant; unwind 12",
+          stubs=STUB_POOL),
         H("c14_new_establishes_invariant", mod="server::verif_server::c14", timeout=(600, 1800),
           functions=["varlink::server::ThreadPool::new"],
           symbolic="initial, max in 1..=5",
